@@ -9,12 +9,14 @@ namespace Qx.C02Codec
 open Qx.Xml Qx.Xml.Codec Qx.C01Codec
 
 /-- **Whatever tree the field readers are run on, the values they report are canonical**
-(integers in range of the C++ type, enum indices valid, optional / repeated parts well shaped). -/
-theorem decode_lands_canon_fields (S : Schema) (x : Node) : canonFs S.fields (S.decode x) = true :=
-  canonFs_decFs S.fields _ x
+(integers in range of the C++ type, enum indices valid, optional / repeated parts well shaped, an element the class
+treats as absent reported as all defaults) — for every well-formed schema. -/
+theorem decode_lands_canon_fields (S : Schema) (hS : S.WF) (x : Node) : canonFs S.fields (S.decode x) = true :=
+  canonFs_decFs S.fields S.head.ns _ x hS.2.2.1
 
 /-- **Every element the class's `fromDom` accepts yields a canonical value** — for EVERY tree `x`. -/
-theorem decode_lands_canon (S : Schema) (x : Node) (v : List Val) (h : S.parse x = some v) : S.Canon v := by
+theorem decode_lands_canon (S : Schema) (hS : S.WF) (x : Node) (v : List Val) (h : S.parse x = some v) :
+    S.Canon v := by
   simp only [Schema.parse] at h
   split at h
   · rename_i y _
@@ -22,14 +24,14 @@ theorem decode_lands_canon (S : Schema) (x : Node) (v : List Val) (h : S.parse x
     · rename_i hm
       simp only [Option.some.injEq] at h
       subst h
-      exact ⟨canonFs_decFs S.fields _ y, hm⟩
+      exact ⟨canonFs_decFs S.fields S.head.ns _ y hS.2.2.1, hm⟩
     · simp at h
   · simp at h
 
 /-- for classes without mandatory parts the readers' result is canonical on every tree, accepted or not -/
-theorem decode_lands_canon_total (S : Schema) (hm : noMandFs S.fields = true) (x : Node) :
+theorem decode_lands_canon_total (S : Schema) (hS : S.WF) (hm : noMandFs S.fields = true) (x : Node) :
     S.Canon (S.decode x) :=
-  ⟨canonFs_decFs S.fields _ x, mandOK_of_noMand _ _ hm⟩
+  ⟨canonFs_decFs S.fields S.head.ns _ x hS.2.2.1, mandOK_of_noMand _ _ hm⟩
 
 /-- **One parse/serialize pass is a fixpoint.** If the class accepts `x` and serializes the result
 to `y`, then it accepts `y` and serializes it to `y` again — for every tree `x`, not only the class's
@@ -37,12 +39,12 @@ own documents. -/
 theorem norm_idem (S : Schema) (hS : S.WF) (x y : Node) (h : S.norm x = some y) : S.norm y = some y := by
   simp only [Schema.norm, Option.map_eq_some_iff] at h
   obtain ⟨v, hv, rfl⟩ := h
-  exact reserialize_same S hS v (decode_lands_canon S x v hv)
+  exact reserialize_same S hS v (decode_lands_canon S hS x v hv)
 
 /-- the same without the type check: `encode ∘ decode` is idempotent on all trees -/
 theorem norm_idem_total (S : Schema) (hS : S.WF) (hm : noMandFs S.fields = true) (x : Node) :
     S.encode (S.decode (S.encode (S.decode x))) = S.encode (S.decode x) := by
-  rw [decode_encode S hS _ (decode_lands_canon_total S hm x)]
+  rw [decode_encode S hS _ (decode_lands_canon_total S hS hm x)]
 
 /-- non-vacuity: a foreign element is a legitimate input of `norm_idem_total` -/
 example : noMandFs Classes.Bind2Request.fields = true := by decide
